@@ -6,6 +6,7 @@ import (
 	"fmt"
 	"io"
 	"math"
+	"reflect"
 	"regexp"
 	"strconv"
 	"strings"
@@ -451,9 +452,11 @@ func (s *state) walkIncludeNode(node *parse.IncludeNode) (tpl string, ctx map[st
 		ctx = s.scope.All()
 	}
 	if with != nil {
-		if with, ok := with.(map[string]Value); ok {
-			for k, v := range with {
-				ctx[k] = v
+		// Any map is a hash, whatever its Go type: a variable handed in
+		// through the context is rarely a map[string]Value.
+		if r := reflect.Indirect(reflect.ValueOf(with)); r.IsValid() && r.Kind() == reflect.Map {
+			for _, k := range r.MapKeys() {
+				ctx[CoerceString(k.Interface())] = r.MapIndex(k).Interface()
 			}
 		}
 	}
